@@ -33,6 +33,19 @@ struct Utxo {
     value: Value,
     coin: u64,
     assets: BTreeMap<(Vec<u8>, Vec<u8>), u64>,
+    /// reference script carried by the UTxO (offered UTxOs only)
+    script_ref: Option<ScriptRef>,
+}
+
+impl Utxo {
+    /// the UTxO as the caller offers it (with its reference script, which has a price)
+    fn as_unspent(&self) -> TransactionUnspentOutput {
+        let mut out = TransactionOutput::new(&self.addr, &self.value);
+        if let Some(s) = &self.script_ref {
+            out.set_script_ref(s);
+        }
+        TransactionUnspentOutput::new(&self.input, &out)
+    }
 }
 
 fn key_addr(k: u8, kind: usize) -> Address {
@@ -90,6 +103,9 @@ fn selection(ctx: &mut Ctx, tape: &[u8]) -> CaseResult {
     let wd_mode = if dup { 1 + t.choose(4) } else { 0 };
     // a caller-requested minimum fee at or below the real one must not change what has to be covered
     let fee_req = if t.chance(64) { 1 + t.choose(4) } else { 0 };
+    // a fifth of the cases: reference scripts have a price and some offered UTxOs carry one (selecting such a UTxO
+    // raises the minimum fee by more than its size). Drawn last, and 0 means no, so that earlier tapes keep their meaning
+    let ref_scripts = t.byte() >= 206;
 
     let cfg = TransactionBuilderConfigBuilder::new()
         .fee_algo(&LinearFee::new(&bn(fee_a), &bn(fee_b)))
@@ -98,6 +114,7 @@ fn selection(ctx: &mut Ctx, tape: &[u8]) -> CaseResult {
         .key_deposit(&bn(key_deposit))
         .max_value_size(5000)
         .max_tx_size(1_000_000)
+        .ref_script_coins_per_byte(&UnitInterval::new(&bn(if ref_scripts { 15 } else { 0 }), &bn(1)))
         .build()
         .map_err(|e| Failure::new("engine/config", format!("{:?}", e)))?;
     let mut tb = TransactionBuilder::new(&cfg);
@@ -153,7 +170,7 @@ fn selection(ctx: &mut Ctx, tape: &[u8]) -> CaseResult {
             }
         }
         let addr = key_addr(c.choose(5) as u8, c.choose(3));
-        Utxo { input, addr, value: mk_value(coin, &assets), coin, assets }
+        Utxo { input, addr, value: mk_value(coin, &assets), coin, assets, script_ref: None }
     };
     let total_out: u64 = out_specs.iter().map(|o| o.0).sum();
     let marks: Vec<u64> = out_specs.iter().flat_map(|o| vec![o.0, o.0 * 2, o.0 * 3, o.0 / 2, o.0 + 200_000, total_out / 3 + 1]).collect();
@@ -183,8 +200,13 @@ fn selection(ctx: &mut Ctx, tape: &[u8]) -> CaseResult {
             4 => marks[c.choose(marks.len())].max(300),
             _ => c.range_u64(300, scale).max(300),
         };
-        let u = mk_utxo(&mut c, i, coin, &asset_ids);
-        let out = TransactionOutput::new(&u.addr, &u.value);
+        let mut u = mk_utxo(&mut c, i, coin, &asset_ids);
+        if ref_scripts && c.chance(90) {
+            let size = [30usize, 2_000, 20_000, 26_000][c.choose(4)];
+            u.script_ref = Some(ScriptRef::new_plutus_script(&PlutusScript::new_v2(pool_bytes(3, size, 55))));
+            ctx.label("offered-utxo-carries-reference-script");
+        }
+        let out = u.as_unspent().output();
         offered.add(&TransactionUnspentOutput::new(&u.input, &out));
         offered_keys.push(u.input.to_bytes());
         // (the offered list is a set: the same outpoint is never offered twice, see assumptions)
@@ -261,7 +283,7 @@ fn selection(ctx: &mut Ctx, tape: &[u8]) -> CaseResult {
             fee_b,
             out_specs.iter().map(|o| (o.0, o.1.values().cloned().collect::<Vec<_>>())).collect::<Vec<_>>(),
             before.iter().map(|k| utxos.get(k).map(|u| u.coin).unwrap_or(0)).collect::<Vec<_>>(),
-            offered_keys.iter().map(|k| (utxos[k].coin, utxos[k].assets.values().cloned().collect::<Vec<_>>())).collect::<Vec<_>>(),
+            offered_keys.iter().map(|k| (utxos[k].coin, utxos[k].assets.values().cloned().collect::<Vec<_>>(), utxos[k].script_ref.as_ref().map(|s| format!("ref-script {} bytes", s.to_unwrapped_bytes().len())).unwrap_or_default())).collect::<Vec<_>>(),
             format!("{}{}", if with_cert { format!(" +stake_registration(deposit {})", key_deposit) } else { String::new() }, if withdrawal > 0 { format!(" +withdrawal({})", withdrawal) } else { String::new() }) + &min_fee_request.map(|f| format!(" +set_min_fee({})", f)).unwrap_or_default(),
             log
         )
@@ -330,7 +352,7 @@ fn selection(ctx: &mut Ctx, tape: &[u8]) -> CaseResult {
                     for k in &after {
                         if k != smallest {
                             let u = &utxos[k];
-                            let _ = ib.add_regular_input(&u.addr, &u.input, &u.value);
+                            let _ = ib.add_regular_utxo(&u.as_unspent());
                         }
                     }
                     c2.set_inputs(&ib);
@@ -467,7 +489,7 @@ fn selection(ctx: &mut Ctx, tape: &[u8]) -> CaseResult {
                 }
                 for k in &keys {
                     let u = &utxos[k];
-                    let _ = ib.add_regular_input(&u.addr, &u.input, &u.value);
+                    let _ = ib.add_regular_utxo(&u.as_unspent());
                 }
                 c2.set_inputs(&ib);
                 if let Ok(Ok(f2)) = catch(|| c2.min_fee()) {
